@@ -302,6 +302,9 @@ impl ColumnParsing {
                                             "dec" => { month = 12; }
                                             _ => { return Value::Null; }
                                         }
+                                    } else {
+                                        // The month group did not take part in the match: there is no month to use
+                                        return Value::Null;
                                     }
                                 } else {
                                     return Value::Null;
